@@ -719,3 +719,53 @@ Example reader_examples :
   read true false "C |^1:5|" = Err IncorrectSmiles /\ read true false "C11" = Err ValueError /\
   read true false ">>" = Err ValueError /\ read false false "[CH3:1][CH3:1]" = Err ValueError.
 Proof. repeat split; try (eexists; vm_compute; reflexivity); try (do 3 eexists; vm_compute; reflexivity); vm_compute; reflexivity. Qed.
+
+(* ------------------------------------------------------------------------------------------------ mapping_numbers for reactions (partial) *)
+Lemma concat_chunk {B} (xs : list (list B)) : forall l : list Z, List.length l = List.length (List.concat xs) ->
+  List.concat (chunk l (map (@List.length B) xs)) = l.
+Proof.
+  induction xs as [|x r IH]; intros l Hl; cbn [map chunk List.concat] in *.
+  - destruct l; [reflexivity | discriminate].
+  - rewrite app_length in Hl. rewrite IH; [apply firstn_skipn | rewrite skipn_length; lia].
+Qed.
+
+(* postprocess_parsed_reaction(remap=False): one number per atom in every role; the numbers of the reactant side are pairwise
+   distinct, and so are those of the product side.
+   PARTIAL: not proved here - distinctness of the reagent numbers after the re-numbering of reagent atoms that collide with
+   reactants / products, their disjointness from both sides, and the remap=True squeeze (all tied by correspondence only). *)
+Theorem mapping_numbers_reaction_partial ignore rs ps gs mR mP mG :
+  pp_reaction false ignore rs ps gs = Ok (mR, mP, mG) ->
+  NoDup (List.concat mR) /\ NoDup (List.concat mP) /\
+  List.length (List.concat mR) = List.length (List.concat rs) /\ List.length (List.concat mP) = List.length (List.concat ps) /\
+  List.length (List.concat mG) = List.length (List.concat gs).
+Proof.
+  unfold pp_reaction. destruct (negb _); [discriminate|].
+  set (start := _ + 1).
+  assert (Hs : forall m, (In m (List.concat rs) \/ In m (List.concat ps)) \/ In m (List.concat gs) -> m < start).
+  { intros m Hm. unfold start.
+    pose proof (zmax_list_ge (List.concat rs) 0) as [_ A]. pose proof (zmax_list_ge (List.concat ps) 0) as [_ B].
+    pose proof (zmax_list_ge (List.concat gs) 0) as [_ C].
+    destruct Hm as [[Hm | Hm] | Hm]; [specialize (A m Hm) | specialize (B m Hm) | specialize (C m Hm)]; lia. }
+  destruct (number_loop ignore (List.concat rs) start []) as [[r1 n1]|e] eqn:E1; [|discriminate].
+  destruct (number_loop_spec ignore _ start [] r1 n1 (fun m Hm => Hs m (or_introl (or_introl Hm))) (fun u Hu => match Hu with end) E1)
+    as [R1 [R2 _]].
+  pose proof (number_loop_good ignore (List.concat rs) start []) as L1. rewrite E1 in L1. cbn in L1.
+  destruct (number_loop ignore (List.concat ps) n1 []) as [[p1 n2]|e] eqn:E2; [|discriminate].
+  destruct (number_loop_spec ignore _ n1 [] p1 n2 (fun m Hm => ltac:(specialize (Hs m (or_introl (or_intror Hm))); lia))
+              (fun u Hu => match Hu with end) E2) as [P1 [P2 _]].
+  pose proof (number_loop_good ignore (List.concat ps) n1 []) as L2. rewrite E2 in L2. cbn in L2.
+  pose proof (number_loop_good ignore (List.concat gs) n2 []) as L3.
+  destruct (number_loop ignore (List.concat gs) n2 []) as [[g1 n3]|e]; [|discriminate]. cbn in L3.
+  assert (K : forall (g2 : list Z) (n4 : Z), List.length g2 = List.length g1 ->
+     Ok (chunk r1 (map (@List.length Z) rs), chunk p1 (map (@List.length Z) ps), chunk g2 (map (@List.length Z) gs)) = Ok (mR, mP, mG) ->
+     NoDup (List.concat mR) /\ NoDup (List.concat mP) /\
+     List.length (List.concat mR) = List.length (List.concat rs) /\ List.length (List.concat mP) = List.length (List.concat ps) /\
+     List.length (List.concat mG) = List.length (List.concat gs)).
+  { intros g2 n4 Hg H. inversion H; subst. rewrite !concat_chunk by lia. repeat split; try assumption; lia. }
+  destruct g1 as [|x g1'] eqn:Eg; [apply (K [] n3); reflexivity|]. rewrite <- Eg in *.
+  destruct (filter _ g1) as [|y cm] eqn:Ec; [apply (K g1 n3); reflexivity|].
+  destruct (negb ignore); [discriminate|].
+  match goal with |- context [fold_left ?f g1 ([], n3)] => pose proof (refresh_length (y :: cm) g1 ([], n3)) as L;
+    destruct (fold_left f g1 ([], n3)) as [g2 n4] eqn:Ef end.
+  cbn [fst List.length] in L. apply (K g2 n4). lia.
+Qed.
